@@ -177,6 +177,22 @@ func (s *MemCachedStore) SeekAsync(ctx context.Context, rng SeekRange, cutPrefix
 	// what the caller does with its slices then.
 	rng.Prefix = bytes.Clone(rng.Prefix)
 	rng.Start = bytes.Clone(rng.Start)
+	// Private lower layers have no locks and belong to the caller's goroutine
+	// (which goes on writing to them, flushing upper layers into them), so their
+	// part of the answer is taken now as well; only a shared store or the
+	// backend is read asynchronously.
+	for rng.SearchDepth == 0 || rng.SearchDepth > 1 {
+		lower, ok := ps.(*MemCachedStore)
+		if !ok || !lower.private {
+			break
+		}
+		if rng.SearchDepth > 1 {
+			rng.SearchDepth--
+		}
+		var lowerRes []KeyValueExists
+		ps, lowerRes = lower.prepareSeekMemSnapshot(rng)
+		memRes = mergeMemSnapshots(memRes, lowerRes)
+	}
 	go func() {
 		performSeek(ctx, ps, memRes, rng, cutPrefix, func(k, v []byte) bool {
 			select {
@@ -190,6 +206,24 @@ func (s *MemCachedStore) SeekAsync(ctx context.Context, rng SeekRange, cutPrefix
 	}()
 
 	return res
+}
+
+// mergeMemSnapshots adds the items of a lower layer's snapshot that the upper
+// layer's one doesn't override.
+func mergeMemSnapshots(upper, lower []KeyValueExists) []KeyValueExists {
+	if len(lower) == 0 {
+		return upper
+	}
+	seen := make(map[string]struct{}, len(upper))
+	for i := range upper {
+		seen[string(upper[i].Key)] = struct{}{}
+	}
+	for i := range lower {
+		if _, ok := seen[string(lower[i].Key)]; !ok {
+			upper = append(upper, lower[i])
+		}
+	}
+	return upper
 }
 
 // prepareSeekMemSnapshot prepares memory store snapshot of `stor`/`mem` in order
